@@ -9,6 +9,10 @@ Executable, total mirrors of `core/src/proof/multi_proof.rs` (line numbers refer
 * `multiVerifyUpdate`   — `verify_update` with `CommonSiblings::{advance,pop_to,extend,pop_if_at_depth}`
   and `hash_and_compact_terminal`
 
+The mirror follows the REPAIRED `verify_range` (/repo commit 2b65ee4: malformed proofs give
+`InvalidDepth` / `TooFewSiblings` / `PathPrefixOfAnother` instead of a panic); the slice / index /
+subtraction sites behind the new guards are kept explicit and proved unreachable (`Props/C18.lean`).
+
 Conventions.  `usize` is `Nat`; a subtraction that would underflow, a slice or index out of range, an
 `unwrap` on `None`, an `unwrap_err` on `Ok` and a failing `assert!` are `Outcome.panic "<site>"` (the
 harness is built with overflow checks on).  `PathProofTerminal::path()` is `Terminal.path`: the full key
@@ -61,6 +65,9 @@ def sliceUpTo (site : String) (l : List α) (b : Nat) : Outcome ε (List α) :=
 /-- `a - b` on `usize` with overflow checks -/
 def checkedSub (site : String) (a b : Nat) : Outcome ε Nat :=
   if b ≤ a then .ok (a - b) else .panic site
+
+/-- `if c { return Err(e) }` -/
+def failIf (c : Bool) (e : ε) : Outcome ε Unit := if c then .err e else .ok ()
 
 /-- result of `slice::binary_search_by`: `Ok(i)` / `Err(i)` -/
 inductive BSearch where
@@ -214,6 +221,7 @@ def fromPathProofs (pps : List (PathProof Node VH)) : Outcome Unit (MultiProof N
 
 inductive MultiVerifyErr where
   | rootMismatch | pathsOutOfOrder | tooManySiblings
+  | tooFewSiblings | invalidDepth | pathPrefixOfAnother
 deriving DecidableEq, Repr
 
 /-- `VerifiedMultiPath` (+ the ghost `route`) -/
@@ -262,7 +270,9 @@ def verifyRange : Nat → List Bool → Nat → List (MultiPathProof VH) → Lis
       .ok { node := H.term, used := 0, bis := [],
             paths := [{ terminal := .terminator [], depth := 0, uStart := 0, uEnd := 0, route := pos }] }
     | [tp] => do
+      failIf (decide (tp.depth < sd) || decide (tp.depth > tp.terminal.path.length)) .invalidDepth
       let ul ← checkedSub "multi_proof.rs:482 terminal_path.depth - start_depth" tp.depth sd
+      failIf (decide (sibs.length < ul)) .tooFewSiblings
       let seg ← sliceFromTo "multi_proof.rs:486 path()[start_depth..start_depth + unique_len]"
         tp.terminal.path sd (sd + ul)
       let us ← sliceUpTo "multi_proof.rs:487 siblings[..unique_len]" sibs ul
@@ -271,9 +281,13 @@ def verifyRange : Nat → List Bool → Nat → List (MultiPathProof VH) → Lis
                          route := pos ++ seg }] }
     | first :: p2 :: rest => do
       let last := (p2 :: rest).getLast (by simp)
+      failIf (decide (first.terminal.path.length < sd) || decide (last.terminal.path.length < sd))
+        .pathPrefixOfAnother
       let a ← sliceFrom "multi_proof.rs:506 start_path.path()[start_depth..]" first.terminal.path sd
       let b ← sliceFrom "multi_proof.rs:507 end_path.path()[start_depth..]" last.terminal.path sd
       let cb := shared a b                 -- common_bits
+      failIf (paths.any (fun p => decide (p.terminal.path.length ≤ sd + cb))) .pathPrefixOfAnother
+      failIf (decide (sibs.length < cb)) .tooFewSiblings
       let usl := sd + cb + 1               -- uncommon_start_len
       let sr ← binarySearchBy (bisectCmp (usl - 1)) paths
       let idx ← (match sr with
@@ -475,17 +489,21 @@ def buildTrieM (L skip : Nat) (ops : List (Key × VH)) : Outcome MultiVUErr Node
   if buildTrieSlicePanics L skip ops then .panic "update.rs:163/203 key slice out of range"
   else .ok (buildTrie H skip ops)
 
+/-- the `up_layers` computation of `hash_and_compact_terminal` (multi_proof.rs:826-841) -/
+def upLayers (t : VPath VH) (next : Option (VPath VH)) : Outcome MultiVUErr Nat :=
+  match next with
+  | some nt =>
+    let n := shared t.terminal.path nt.terminal.path
+    if n == t.depth then .err .pathPrefixOfAnother
+    else checkedSub "multi_proof.rs:838 skip - (n + 1)" t.depth (n + 1)
+  | none => pure t.depth
+
 /-- mirror of `hash_and_compact_terminal` -/
 def hashAndCompactTerminal (L : Nat) (pend : Stack Node) (t : VPath VH) (next : Option (VPath VH))
     (cs : CommonSiblings Node) (ops : List (Key × Option VH)) :
     Outcome MultiVUErr (Stack Node × CommonSiblings Node) := do
   let skip := t.depth
-  let up ← (match next with
-    | some nt =>
-      let n := shared t.terminal.path nt.terminal.path
-      if n == skip then .err .pathPrefixOfAnother
-      else checkedSub "multi_proof.rs:838 skip - (n + 1)" skip (n + 1)
-    | none => pure skip)
+  let up ← upLayers t next
   let sub ← buildTrieM H L skip (leafOpsSpliced t.terminal.asLeaf ops)
   let pth ← sliceUpTo "multi_proof.rs:853 path()[..terminal.depth]" t.terminal.path t.depth
   let r ← hctLoop H pth up skip sub pend cs
